@@ -32,10 +32,13 @@ def run(ctx):
     R4 = rep.rule('C10.R4', 'caches without a reloader: LocalAssetCache, without_hot_reloading, refusing sources', floor=3)
     R5 = rep.rule('C10.R5', 'forgetting is told to the reloader: every destroying operation notifies, and the handler mutates the graph', floor=3)
     R6 = rep.rule('C10.R6', 'registering as reloadable implies caching in the same operation', floor=2)
+    R7 = rep.rule('C10.R7', 'type descriptors are honest: hot_reloaded mirrors the declared HOT_RELOADED constants, which forward from Asset to Compound to Storable', floor=6)
     for cfg, F in ctx.cfgs():
         hr = 'hot-reloading' in ctx.cfg_features[cfg]
         r1(R1, cfg, F, hr)
         R1.finish_cfg(cfg)
+        r7(R7, cfg, F)
+        R7.finish_cfg(cfg)
         if not hr:
             continue
         r2(R2, cfg, F)
@@ -342,3 +345,64 @@ def r6(R6, cfg, F):
         regs_owned = F.calls_to(r'^hot_reloading::HotReloader::add_owned_asset$')
         if regs_owned:
             R6.missing(cfg, 'DepsGraph::insert_owned_asset')
+
+
+def const_forward(F, path):
+    """text of the single constant a const body evaluates to"""
+    b = F.bodies.get(path)
+    if b is None:
+        return None
+    rets = [s for _, _, s in b.assigns() if s['place']['l'] == 0 and s['rv']['k'] == 'use' and s['rv']['op']['k'] == 'const']
+    return rets[0]['rv']['op']['text'] if len(rets) == 1 else None
+
+
+def r7(R7, cfg, F):
+    """Whether a key is reloadable is decided from Type.inner.hot_reloaded (records, registration) and from
+    <T as Storable>::HOT_RELOADED (entry kind).  Both must come from what the type declared."""
+    for fn, trait, loader in (('of_asset', 'asset::Compound', 'key::Inner::of_asset::load_entry::<T>'), ('of_storable', 'asset::Storable', 'key::Inner::of_storable::load')):
+        pb = F.bodies.get('key::Inner::%s::{promoted#0}' % fn)
+        if pb is None:
+            R7.missing(cfg, 'key::Inner::%s descriptor' % fn)
+            continue
+        ag = [s for _, _, s in pb.assigns() if s['rv']['k'] == 'aggregate' and s['rv'].get('adt') == 'key::Inner']
+        ok = len(ag) == 1
+        got = None
+        if ok:
+            f = dict(zip(ag[0]['rv']['fields'], ag[0]['rv']['ops']))
+            got = (f['hot_reloaded'].get('uneval'), sorted(pb.origins(f['load'])))
+            ok = f['hot_reloaded'].get('uneval') == trait + '::HOT_RELOADED' and f['hot_reloaded'].get('uneval_args', [None])[0] == 'T' \
+                and pb.origins(f['load']) == {('const', loader)}
+        R7.check(ok, cfg, 'key::Inner::' + fn, 'hot_reloaded=<T as %s>::HOT_RELOADED' % trait.split('::')[-1],
+                 'the type descriptor must take hot_reloaded from <T as %s>::HOT_RELOADED and its load function from T; found %s' % (trait, got), pb.loc())
+    b = F.body('key::Type::is_hot_reloaded')
+    if b:
+        rets = [s for _, _, s in b.assigns() if s['place']['l'] == 0]
+        ok = not b.calls() and len(rets) == 1 and rets[0]['rv']['k'] == 'use' and (b.access_path(rets[0]['rv']['op']) or [])[-2:] == ['*', 'hot_reloaded'] \
+            and 'inner' in (b.access_path(rets[0]['rv']['op']) or [])
+        R7.check(ok, cfg, b.path, 'is_hot_reloaded=self.inner.hot_reloaded', 'Type::is_hot_reloaded must return the descriptor flag', b.loc())
+    else:
+        R7.missing(cfg, 'Type::is_hot_reloaded')
+    for fn in ('of_asset', 'of_storable'):
+        b = F.body('key::Type::' + fn)
+        if not b:
+            R7.missing(cfg, 'key::Type::' + fn)
+            continue
+        ag = [s for _, _, s in b.assigns() if s['rv']['k'] == 'aggregate' and s['rv'].get('adt') == 'key::Type']
+        ok = len(ag) == 1
+        if ok:
+            f = dict(zip(ag[0]['rv']['fields'], ag[0]['rv']['ops']))
+            a, c = b.call_roots(f['type_id']), b.call_roots(f['inner'])
+            ok = len(a) == 1 and a[0].callee.best == 'std::any::TypeId::of' and a[0].callee.args == ['T'] and len(c) == 1 and c[0].callee.best == 'key::Inner::' + fn and c[0].callee.args == ['T']
+        R7.check(ok, cfg, b.path, 'Type=(TypeId::of::<T>, Inner::%s::<T>)' % fn, 'a Type must pair the TypeId of T with the descriptor of the same T', b.loc())
+    # the chain of declarations
+    for path, want in (('<T as asset::Storable>::HOT_RELOADED', '<T as asset::Compound>::HOT_RELOADED'), ('<T as asset::Compound>::HOT_RELOADED', '<T as asset::Asset>::HOT_RELOADED'),
+                       ('<std::sync::Arc<T> as asset::Compound>::HOT_RELOADED', '<T as asset::Compound>::HOT_RELOADED')):
+        got = const_forward(F, path)
+        R7.check(got == want, cfg, path, 'forwards-' + want, 'the blanket impl must forward the opt-out of the type: `%s` is %s, expected %s' % (path, got, want))
+    ck = F.bodies.get('asset::Storable::_CHECK_NOT_HOT_RELOADED')
+    if ck:
+        texts = [s['rv']['op'].get('text') for _, _, s in ck.assigns() if s['rv']['k'] == 'use' and s['rv']['op']['k'] == 'const']
+        sw = [t_ for _, t_ in ck.terms() if t_['k'] == 'switch']
+        pan = [c for c in ck.calls(include_dead=True) if c.callee and 'panic' in c.callee.best]
+        ok = '<Self as asset::Storable>::HOT_RELOADED' in texts and bool(pan)
+        R7.check(ok, cfg, ck.path, 'assert!(!HOT_RELOADED)', '_CHECK_NOT_HOT_RELOADED must assert that the type is not hot-reloaded', ck.loc())
